@@ -644,7 +644,7 @@ class ParameterSet(NamedItem):
 
         excelfile = spreadsheet.pandas()
 
-        df = pd.read_excel(excelfile, "Y-factors" if "Y-factors" in excelfile.sheet_names else 0)
+        df = pd.read_excel(excelfile, "Y-factors" if "Y-factors" in excelfile.sheet_names else 0, keep_default_na=False, na_values=[""])  # nb. only empty cells are missing values - a population can be called "NA" or "null"
         df.set_index(["par", "pop"], inplace=True)
 
         if df.index.duplicated().any():
